@@ -85,3 +85,25 @@ _spec._TABLE.update(
         "n_rows": lambda ex, node: SV(S.mk_int(n_rows(ex.ref_id(ex.eval(node.args[0])))), T.INT),
     }
 )
+
+
+# -- frame.iloc[...] (C04 update_variables: the last recorded state as a Series) ---------------------
+def _attr_iloc(ex: Exec, base: SV, name: str):
+    if base.ty.kind == "obj" and base.ty.cls in ("pd.DataFrame", "DataFrame") and name == "iloc":
+        return SV(None, T.RAW, aux=("frame-iloc", base))
+    return None
+
+
+lib.ATTR_HOOKS.append(_attr_iloc)
+
+_orig_sub2 = lib.subscript_hook
+
+
+def _subscript_iloc(ex: Exec, base: SV, key: SV):
+    if base.ty.kind == "raw" and isinstance(base.aux, tuple) and base.aux[0] == "frame-iloc":
+        lib.used(ex, "frame.iloc[...]: a fresh Series / frame object (contents not modelled)")
+        return SV(S.mk_ref(ex.new_obj("pd.Series")), T.obj("pd.Series"))
+    return _orig_sub2(ex, base, key)
+
+
+lib.subscript_hook = _subscript_iloc
